@@ -69,7 +69,19 @@ def main():
             meta['confirmed'] = {'demo_without_change_exit': rc0, 'demo_with_change_exit': rc1, 'tests_with_change': res['tests_with_change'],
                                  'valid': res['valid'],
                                  'ran': 'tools/seedtest.py: demo on clean tree; git apply patch.diff; pytest test; demo again; then ./check <id> --tier %s with KNEE_REPO=<patched tree>' % a.tier}
+            for c in res['checks'].values():
+                c['tier'] = a.tier
             meta['checks_run'] = res['checks']
+            old = os.path.join(dst, 'meta.json')
+            if os.path.exists(old):
+                try:
+                    om = json.load(open(old))
+                    if om.get('coordinator_note'):
+                        meta['coordinator_note'] = om['coordinator_note']
+                    for k, v in om.get('checks_run', {}).items():      # keep the latest verdict of checks not re-run now
+                        meta['checks_run'].setdefault(k, v)
+                except Exception:
+                    pass
             json.dump(meta, open(os.path.join(dst, 'meta.json'), 'w'), indent=1)
     finally:
         if a.repo:
